@@ -1,10 +1,14 @@
 #!/bin/bash
-# usage: tools_trymutant.sh <worktree> <patch> <prop> [check args...]
-# applies patch in the scratch worktree, runs the check against it (VERIF_REPO), reverts.
-wt=$1; patch=$2; prop=$3; shift 3
-git -C $wt checkout -- . && git -C $wt apply $patch || { echo "APPLY FAILED"; exit 3; }
+# usage: tools/trymutant.sh <seeded-id|patch-file> <prop> [check args...]
+# Applies a seeded change in a scratch worktree of /repo (never /repo itself), runs the
+# check of <prop> against it (VERIF_REPO), removes the worktree. Replays go to /tmp/mutreplays.
+id=$1; prop=$2; shift 2
+patch=$id; [ -f "$patch" ] || patch=/verif/seeded/$id/patch.diff
+wt=/tmp/mut_$$_$(basename $id)
+git -C /repo worktree add --detach $wt HEAD -f >/dev/null 2>&1 || { echo "worktree failed"; exit 3; }
+git -C $wt apply $patch || { echo "APPLY FAILED $patch"; git -C /repo worktree remove --force $wt; exit 3; }
 VERIF_REPO=$wt VERIF_REPLAY_DIR=/tmp/mutreplays /verif/check $prop "$@"
 rc=$?
-git -C $wt checkout -- .
-echo "mutant $patch on $prop -> exit $rc"
+git -C /repo worktree remove --force $wt
+echo "MUTANT $id on $prop -> exit $rc"
 exit $rc
